@@ -585,6 +585,9 @@ func (r *Report) Finish() int {
 			if fr.Trusted {
 				trusted = append(trusted, fr.Name+" (contract trusted: data plane / dependency)")
 			}
+			if fr.Spec != nil && fr.Spec.Flags["posttrusted"] {
+				trusted = append(trusted, fr.Name+" (postconditions trusted; loop invariants, assertions and callee preconditions of its body are checked)")
+			}
 			for _, a := range fr.Assumed {
 				assumed[a] = true
 			}
